@@ -412,7 +412,7 @@ class CEval(object):
     def i_typeof(self, n):
         v = self.ev(n.args[0])
         cls = ast.literal_eval(n.args[1])
-        carr = self.ex.harr(self.st, '$cls', ArrS(INT, INT))
+        carr = self.ex.cls_arr()
         t = v.t if v.pt.kind != 'cell' else ptypes.dt_sel('oid', v.t, INT, 'CObj')
         g = Eq(Select(carr, t), IntC(self.ex.program.class_id(cls)))
         if v.pt.kind == 'cell':
